@@ -1766,3 +1766,111 @@ def la3(m, run):
            'A x = b for all %d permutations' % len(perms) if not badp else
            'when the pivoting orders the rows as %s (P A = rows %s of A): %s   [%d of %d permutations]; the right-hand side must be permuted with P, not with its transpose'
            % (list(badp[0][0]), list(badp[0][0]), badp[0][1], len(badp), len(perms)), site_(ff))
+
+
+# ====================================================================================== C20: crossing rule on order types
+def wn2(m, run):
+    """WN2: linalg.wn_poly touches the y coordinates only through comparisons and the x coordinates only through the sign of is_left: it is
+    interpreted for every order type of (three vertex heights, query height) of a closed three-edge polygon and every assignment of
+    sides to the edges; the result must be bool(sum over edges of [V_i.y <= P.y < V_i+1.y and P left] - [V_i+1.y <= P.y < V_i.y and P right])"""
+    import itertools as it
+    fi = m.func('linalg.wn_poly')
+    bad = []
+    n = 0
+    for ys in it.product(range(3), repeat=3):
+        for py in (0, 1, 2, 0.5, 1.5):
+            for signs in list(it.product((1, -1), repeat=3)) + [(0, 0, 0)]:
+                V = [[DEF(), Ord(ys[k])] for k in range(3)]
+                V.append(V[0])
+                P = [DEF(), Ord(py)]
+                edges = {(id(V[k]), id(V[k + 1])): signs[k] for k in range(3)}
+
+                def is_left(sk, node, a, b, c, _e=edges, _P=P):
+                    if c is not _P:
+                        raise Violation('WN2', 'is_left is asked about %r, not about the query point' % (c,), node)
+                    if (id(a), id(b)) in _e:
+                        return _e[(id(a), id(b))]
+                    if (id(b), id(a)) in _e:
+                        return -_e[(id(b), id(a))]
+                    raise Violation('WN2', 'is_left is asked about a segment that is not an edge V[i] -> V[i+1] of the polygon', node)
+                ab = dict(STD_ABSTRACTED)
+                ab[('linalg', 'is_left')] = Py(is_left, 'is_left')
+                sk = SK(m, ab)
+                want = 0
+                for k in range(3):
+                    a, b = ys[k], ys[(k + 1) % 3]
+                    if a <= py < b and signs[k] > 0:
+                        want += 1
+                    elif b <= py < a and signs[k] < 0:
+                        want -= 1
+                n += 1
+                try:
+                    out = sk.call(fi, [P, V], {})
+                    why = None if out is bool(want) or out == bool(want) and isinstance(out, bool) else 'returns %r, the winding number is %d' % (out, want)
+                except Violation as v:
+                    why = '%s %s' % (v.msg, v.where())
+                except Unsupported as ex:
+                    raise AnalysisError('linalg.wn_poly: interpreter met an unsupported construct: %s' % ex)
+                if why:
+                    bad.append((ys, py, signs, why))
+    run.ob('WN2.crossing-rule-on-order-types', 'linalg.wn_poly :: %d (height order type, side assignment) cases of a closed three-edge polygon' % n, not bad,
+           'an edge counts when V[i].y <= P.y < V[i+1].y (upward, P left) or V[i+1].y <= P.y < V[i].y (downward, P right): start included, end excluded, both ways' if not bad else
+           'vertex heights %s, query height %s, sides %s: %s   [%d of %d cases]; a vertex level with the query point is counted once, by the half-open rule applied the same way to '
+           'upward and downward edges' % (list(bad[0][0]), bad[0][1], list(bad[0][2]), bad[0][3], len(bad), n), 'geomdl/linalg.py:%d in linalg.wn_poly' % fi.node.lineno)
+
+
+def vx3(m, run, rule='VX3.voxelize-per-element'):
+    """VX3: voxelize.voxelize interpreted on an abstract container of two elements, serial and parallel: element k's voxel grid is generated
+    from element k's bounding box, filled from element k's evaluated points, by find_inouts_st when num_procs <= 1 and find_inouts_mp
+    otherwise, with the same remaining options; the results are concatenated in element order"""
+    fi = m.func('voxelize.voxelize')
+    for procs in (1, 4):
+        calls = []
+        elems = []
+        for k in range(2):
+            b = Bag('rec:shape', bbox=('bbox', k), evalpts=[('pts', k)], dimension=3, pdimension=3)
+            b._a['__iter__'] = [b]
+            elems.append(b)
+        cont = Bag('rec:container', dimension=3, pdimension=3, bbox=('bbox', 'container'), evalpts=[('pts', 'container')])
+        cont._a['__iter__'] = elems
+        ab = dict(STD_ABSTRACTED)
+        ab[('_voxelize', 'generate_voxel_grid')] = Py(lambda sk, node, bbox, *a, **k: [('voxel', bbox, i) for i in range(2)], 'generate_voxel_grid')
+
+        def finder(which):
+            def f(sk, node, grid, pts_, *a, _w=which, **k):
+                calls.append((_w, grid, pts_, a, dict(k)))
+                return [('filled', v) for v in grid]
+            return Py(f, which)
+        ab[('_voxelize', 'find_inouts_st')] = finder('find_inouts_st')
+        ab[('_voxelize', 'find_inouts_mp')] = finder('find_inouts_mp')
+        sk = SK(m, ab)
+        key = 'voxelize.voxelize :: container of two elements, num_procs=%d' % procs
+        why = None
+        try:
+            out = sk.call(fi, [cont], {'num_procs': procs, 'padding': 0.25, 'grid_size': (2, 2, 2)})
+            want_fn = 'find_inouts_mp' if procs > 1 else 'find_inouts_st'
+            if len(calls) != 2:
+                why = 'the in/out finder is called %d times for 2 elements' % len(calls)
+            else:
+                for k, (w, grid, pts_, a, kw) in enumerate(calls):
+                    if w != want_fn:
+                        why = 'num_procs=%d uses %s' % (procs, w)
+                    elif [v[1] for v in grid] != [('bbox', k)] * 2:
+                        why = 'the grid of element %d is generated from %s' % (k, sorted({str(v[1]) for v in grid}))
+                    elif pts_ != [('pts', k)]:
+                        why = 'the grid of element %d is filled from the evaluated points of %s: every element is voxelized from its own points' % (k, pts_[0][1] if pts_ and isinstance(pts_[0], tuple) else pts_)
+                    elif kw.get('padding') != 0.25 or kw.get('num_procs') != procs or 'grid_size' in kw or a:
+                        why = 'the finder receives the options %s %s; padding and num_procs are forwarded, grid_size and use_cubes are consumed' % (list(a), sorted(kw.items()))
+                    if why:
+                        break
+            if why is None:
+                g, f = out
+                wg = [('voxel', ('bbox', k), i) for k in range(2) for i in range(2)]
+                if g != wg or f != [('filled', v) for v in wg]:
+                    why = 'the returned grid / filled lists are not the per-element results concatenated in element order'
+        except Violation as v:
+            why = '%s %s' % (v.msg, v.where())
+        except Unsupported as ex:
+            raise AnalysisError('%s: interpreter met an unsupported construct: %s' % (key, ex))
+        run.ob(rule, key, why is None, 'each element: own bounding box, own points, same options, results concatenated' if why is None else why,
+               'geomdl/voxelize.py:%d in voxelize.voxelize' % fi.node.lineno)
